@@ -36,7 +36,8 @@ class CsvReader(Filter[Iterable[str], Iterable[MutableSequence]]):
 
     def filter(self, items: Iterable[str]) -> Iterable[Dense]:
 
-        lines = iter(csv.reader(iter(filter(None,(i.strip() for i in items))), **self._dialect))
+        #we only remove the line ending because blanks and tabs at either end of a line belong to the first/last field
+        lines = iter(csv.reader(iter(filter(None,(i.rstrip('\r\n') for i in items))), **self._dialect))
         first = next(lines)
 
         if self._has_header:
